@@ -36,6 +36,90 @@ func constMerge() *progen.Program {
 	return p
 }
 
+// unusedSplit: a stage inside a mapped sub-pipeline that does not use the
+// split argument.
+func unusedSplit(variant string) *progen.Program {
+	p := progen.Dataflow(progen.DataflowParams{Kind: "arr", Src: "gen", Size: 2, Cons: "id"})
+	p.Pipelines = nil
+	I, A := progen.IntT, progen.ArrayOf(progen.IntT)
+	inner := &progen.Pipeline{Name: "INNER", Ins: []progen.Param{{T: I, Name: "x"}, {T: I, Name: "n"}},
+		Outs: []progen.Param{{T: I, Name: "y"}, {T: I, Name: "w"}},
+		Calls: []*progen.Call{
+			{Callee: "ADD", Alias: "USE", Binds: []progen.Bind{{"a", progen.Self("x")}, {"b", progen.Lit(progen.Int(1))}}},
+			{Callee: "ADD", Alias: "WORK", Binds: []progen.Bind{{"a", progen.Self("n")}, {"b", progen.Lit(progen.Int(2))}}},
+		},
+		Ret: []progen.Bind{{"y", progen.Ref("USE", "sum")}, {"w", progen.Ref("WORK", "sum")}}}
+	if variant == "split-unused" || variant == "split-only" {
+		inner.Calls[1] = &progen.Call{Callee: "SUMS", Alias: "WORK", Binds: []progen.Bind{{"xs", progen.Lit(progen.Arr(progen.Int(1), progen.Int(2)))}, {"k", progen.Self("n")}}}
+		inner.Ret[1] = progen.Bind{"w", progen.Ref("WORK", "total")}
+	}
+	if variant == "only-unused" || variant == "split-only" {
+		inner.Calls = inner.Calls[1:]
+		inner.Ret[0] = progen.Bind{"y", progen.Self("x")}
+	}
+	top := &progen.Pipeline{Name: "TOP", Ins: []progen.Param{{T: I, Name: "n"}},
+		Outs: []progen.Param{{T: A, Name: "ys"}, {T: A, Name: "ws"}},
+		Calls: []*progen.Call{
+			{Callee: "GEN", Binds: []progen.Bind{{"n", progen.Self("n")}}},
+			{Callee: "INNER", Map: true, Binds: []progen.Bind{{"x", progen.SplitE(progen.Ref("GEN", "arr"))}, {"n", progen.Self("n")}}},
+		},
+		Ret: []progen.Bind{{"ys", progen.Ref("INNER", "y")}, {"ws", progen.Ref("INNER", "w")}}}
+	p.Pipelines = []*progen.Pipeline{inner, top}
+	p.Top = &progen.Call{Callee: "TOP", Binds: []progen.Bind{{"n", progen.Lit(progen.Int(2))}}}
+	return p
+}
+
+// noOutMapped: a stage without outputs mapped over an empty / null literal;
+// and a map over the output of a stage that carries a disabled modifier.
+func noOutMapped(variant string) *progen.Program {
+	p := progen.Dataflow(progen.DataflowParams{Kind: "arr", Src: "gen", Size: 2, Cons: "id"})
+	p.Pipelines = nil
+	I, A := progen.IntT, progen.ArrayOf(progen.IntT)
+	p.Stages = append(p.Stages, &progen.Stage{Name: "SINK", Fn: "PRE", Ins: []progen.Param{{T: I, Name: "n"}}})
+	top := &progen.Pipeline{Name: "TOP", Ins: []progen.Param{{T: I, Name: "n"}, {T: progen.BoolT, Name: "flag"}},
+		Outs: []progen.Param{{T: I, Name: "v"}}}
+	switch variant {
+	case "empty":
+		top.Calls = []*progen.Call{{Callee: "SINK", Map: true, Binds: []progen.Bind{{"n", progen.SplitE(progen.TLit(p, progen.Arr(), A))}}}}
+		top.Ret = []progen.Bind{{"v", progen.Self("n")}}
+	case "null":
+		top.Calls = []*progen.Call{{Callee: "SINK", Map: true, Binds: []progen.Bind{{"n", progen.SplitE(progen.TLit(p, progen.Null(), A))}}}}
+		top.Ret = []progen.Bind{{"v", progen.Self("n")}}
+	case "in-empty", "in-null":
+		top.Ins = append(top.Ins, progen.Param{T: A, Name: "a"})
+		top.Calls = []*progen.Call{{Callee: "SINK", Map: true, Binds: []progen.Bind{{"n", progen.SplitE(progen.Self("a"))}}}}
+		top.Ret = []progen.Bind{{"v", progen.Self("n")}}
+	case "dyn-src-false", "dyn-src-true":
+		top.Outs = []progen.Param{{T: A, Name: "v"}}
+		cn := int64(0)
+		if variant == "dyn-src-true" {
+			cn = 1
+		}
+		top.Calls = []*progen.Call{
+			{Callee: "COND", Binds: []progen.Bind{{"n", progen.Lit(progen.Int(cn))}}},
+			{Callee: "GEN", Binds: []progen.Bind{{"n", progen.Self("n")}}, Disabled: progen.Ref("COND", "b")},
+			{Callee: "ADD", Map: true, Binds: []progen.Bind{{"a", progen.SplitE(progen.Ref("GEN", "arr"))}, {"b", progen.Lit(progen.Int(1))}}},
+		}
+		top.Ret = []progen.Bind{{"v", progen.Ref("ADD", "sum")}}
+	case "dis-src-false", "dis-src-true":
+		top.Outs = []progen.Param{{T: A, Name: "v"}}
+		top.Calls = []*progen.Call{
+			{Callee: "GEN", Binds: []progen.Bind{{"n", progen.Self("n")}}, Disabled: progen.Self("flag")},
+			{Callee: "ADD", Map: true, Binds: []progen.Bind{{"a", progen.SplitE(progen.Ref("GEN", "arr"))}, {"b", progen.Lit(progen.Int(1))}}},
+		}
+		top.Ret = []progen.Bind{{"v", progen.Ref("ADD", "sum")}}
+	}
+	p.Pipelines = []*progen.Pipeline{top}
+	p.Top = &progen.Call{Callee: "TOP", Binds: []progen.Bind{{"n", progen.Lit(progen.Int(2))}, {"flag", progen.Lit(progen.Bool(variant == "dis-src-true"))}}}
+	progen.FixUnused(p)
+	if variant == "in-empty" {
+		p.Top.Binds = append(p.Top.Binds, progen.Bind{"a", progen.TLit(p, progen.Arr(), A)})
+	} else if variant == "in-null" {
+		p.Top.Binds = append(p.Top.Binds, progen.Bind{"a", progen.TLit(p, progen.Null(), A)})
+	}
+	return p
+}
+
 func main() {
 	core.VerifQuiet()
 	var p *progen.Program
@@ -67,6 +151,10 @@ func main() {
 		return
 	case "constmerge":
 		p = constMerge()
+	case "noout":
+		p = noOutMapped(os.Args[2])
+	case "unused-split":
+		p = unusedSplit(os.Args[2])
 	case "keys":
 		var d progen.KeyParams
 		if err := json.Unmarshal([]byte(os.Args[2]), &d); err != nil {
@@ -77,7 +165,13 @@ func main() {
 	fmt.Println(p.MRO())
 	ref, err := progen.Interpret(p)
 	fmt.Println("ref err:", err)
-	res := psx.Run(p, psx.Schedule{}, psx.Options{KeepDir: os.Getenv("KEEP") != ""})
+	var sched psx.Schedule
+	if sj := os.Getenv("SCHED"); sj != "" {
+		if err := json.Unmarshal([]byte(sj), &sched); err != nil {
+			panic(err)
+		}
+	}
+	res := psx.Run(p, sched, psx.Options{KeepDir: os.Getenv("KEEP") != ""})
 	fmt.Println("dir:", res.Dir)
 	fmt.Println("state:", res.State, "err:", res.Err, res.FatalFq, res.FatalLog)
 	if res.PanicStack != "" {
